@@ -452,3 +452,119 @@ func (g *gen) structHistory() string {
 	}
 	return fmt.Sprintf("struct %s %s", st, strings.Join(ops, ";"))
 }
+
+// ---------------------------------------------------------------- observers
+
+func (g *gen) viewRequest() string {
+	kind := []string{"slice", "slice", "aptr", "aval", "map", "struct"}[g.r.Intn(6)]
+	n := g.r.Intn(5)
+	var names []string
+	var init, tags []string
+	probes := []string{}
+	switch kind {
+	case "map":
+		used := map[string]bool{}
+		for i := 0; i < n; i++ {
+			k := keyPool[g.r.Intn(len(keyPool))]
+			if !used[k] {
+				used[k] = true
+				names = append(names, k)
+				init = append(init, fmt.Sprintf("%s=%d", k, g.r.Intn(10)))
+			}
+		}
+		probes = append(probes, "a", "b", keyPool[g.r.Intn(len(keyPool))], "length", "nope")
+	case "struct":
+		pool := []string{"A", "Bb", "Cc", "d", "e_"}
+		tagPool := []string{"bee", "cee", "zed"}
+		if n == 0 {
+			n = 1
+		}
+		for i := 0; i < n; i++ {
+			k := pool[i]
+			names = append(names, k)
+			if k[0] >= 'A' && k[0] <= 'Z' {
+				init = append(init, fmt.Sprintf("%s=%d", k, g.r.Intn(10)))
+				if g.r.Chance(40) {
+					tags = append(tags, tagPool[i%3]+"="+k)
+				}
+			} else {
+				init = append(init, k+"=0") // unexported fields cannot be initialised through reflect
+			}
+		}
+		probes = append(probes, "A", "Bb", "bee", "cee", "d", "zz")
+	default:
+		for i := 0; i < n; i++ {
+			names = append(names, fmt.Sprint(i))
+			init = append(init, fmt.Sprintf("%d=%d", i, g.r.Intn(10)))
+		}
+		probes = append(probes, "0", "length", "x")
+		if n > 1 {
+			probes = append(probes, fmt.Sprint(n-1))
+		}
+		if g.r.Chance(50) {
+			probes = append(probes, fmt.Sprint(n), fmt.Sprint(n+5))
+		}
+	}
+	var steps []string
+	for i := 0; i < g.r.Intn(5); i++ {
+		key := "0"
+		if len(names) > 0 {
+			key = names[g.r.Intn(len(names))]
+		}
+		v := g.r.Intn(10)
+		switch kind {
+		case "map":
+			if g.r.Chance(30) {
+				key = keyPool[g.r.Intn(len(keyPool))]
+			}
+			switch g.r.Intn(4) {
+			case 0:
+				steps = append(steps, fmt.Sprintf("jw:%s:%d", key, v))
+			case 1:
+				steps = append(steps, fmt.Sprintf("gw:%s:%d", key, v))
+			case 2:
+				steps = append(steps, "jd:"+key)
+			default:
+				steps = append(steps, "gd:"+key)
+			}
+		case "struct":
+			if !(key[0] >= 'A' && key[0] <= 'Z') {
+				continue
+			}
+			wkey := key
+			for _, t := range tags {
+				a := strings.SplitN(t, "=", 2)
+				if a[1] == key && g.r.Chance(50) {
+					wkey = a[0]
+				}
+			}
+			switch g.r.Intn(3) {
+			case 0:
+				steps = append(steps, fmt.Sprintf("jw:%s:%d", wkey, v))
+			case 1:
+				steps = append(steps, fmt.Sprintf("gw:%s:%d", key, v))
+			default:
+				steps = append(steps, "jd:"+key)
+			}
+		default:
+			if len(names) == 0 {
+				continue
+			}
+			switch g.r.Intn(3) {
+			case 0:
+				steps = append(steps, fmt.Sprintf("jw:%s:%d", key, v))
+			case 1:
+				steps = append(steps, fmt.Sprintf("gw:%s:%d", key, v))
+			default:
+				steps = append(steps, "jd:"+key)
+			}
+		}
+	}
+	join := func(a []string, sep string) string {
+		if len(a) == 0 {
+			return "-"
+		}
+		return strings.Join(a, sep)
+	}
+	return fmt.Sprintf("view %s %s %s %s %s", kind, join(init, ","), join(tags, ","), strings.Join(probes, ","), join(steps, ";"))
+}
